@@ -169,10 +169,15 @@ pub fn start_watchdog(limit: Duration, spin_prop: Option<&'static str>) {
 /// guarantees a pending timer, so a case in which everything is blocked forever
 /// ends (with None) instead of parking the thread.
 pub fn vt_block_on_deadline<F: Future>(virtual_deadline: Duration, fut: F) -> Option<F::Output> {
-    let rt = tokio::runtime::Builder::new_current_thread().enable_all().start_paused(true).build().expect("runtime");
-    let out = rt.block_on(async move { tokio::time::timeout(virtual_deadline, fut).await.ok() });
-    drop(rt);
-    out
+    // a panic of the code under test inside the case's main future must not take the shard down:
+    // it is recorded by the panic monitor (the case reports it as a violation) and the case ends
+    let r = std::panic::catch_unwind(std::panic::AssertUnwindSafe(|| {
+        let rt = tokio::runtime::Builder::new_current_thread().enable_all().start_paused(true).build().expect("runtime");
+        let out = rt.block_on(async move { tokio::time::timeout(virtual_deadline, fut).await.ok() });
+        drop(rt);
+        out
+    }));
+    r.unwrap_or(None)
 }
 
 pub fn vt_block_on<F: Future>(fut: F) -> F::Output {
@@ -218,7 +223,14 @@ where
     for h in handles {
         match h.join() {
             Ok(r) => total.merge(r),
-            Err(_) => total.inconclusive("a shard thread of the harness itself panicked"),
+            Err(_) => {
+                let last = last_panic();
+                if is_harness_panic(&last) {
+                    total.inconclusive(format!("a shard thread of the harness itself panicked: {last}"));
+                } else {
+                    total.violate("panic", "escaped_to_monitor", "panic", format!("the code under test panicked on a monitor thread: {last}"), serde_json::json!({"panic": last}));
+                }
+            }
         }
     }
     total
